@@ -159,4 +159,54 @@ example : envKey [80, 88, 95, 80, 82, 79, 70, 73, 76, 69] = none ∧            
     envKey [80, 88, 95, 80, 82, 79, 70, 73, 76, 69, 95, 95, 88] = some [[112, 114, 111, 102, 105, 108, 101], [120]] := by  -- PX_PROFILE__X is another variable
   decide
 
+
+/-- A key segment as it appears in a variable name: non-empty, no blank, no dot, no `__` inside and
+    no trailing `_` (single underscores inside are fine: `MAX_SIZE`). -/
+def SegOk (s : List Nat) : Prop :=
+  s ≠ [] ∧ noDU s = true ∧ s.getLast? ≠ some 95 ∧ ∀ b ∈ s, isWs b = false ∧ b ≠ 46
+
+/-- **C18 (6) `__` is the nesting separator**: for every depth and every list of key segments,
+    the variable `PX_<S1>__<S2>__…__<Sn>` names exactly the nested key `s1.s2.….sn` (lower-cased) —
+    unless that key is the reserved `PROFILE`. -/
+theorem env_key_nested (segs : List (List Nat)) (hne : segs ≠ []) (hs : ∀ s ∈ segs, SegOk s)
+    (hprof : eqUncased (joinWith [46] segs) profileKey = false) :
+    envKey (pxPrefix ++ joinWith [95, 95] segs) = some (segs.map lowerAll) := by
+  have hws : ∀ b ∈ pxPrefix ++ joinWith [95, 95] segs, isWs b = false := by
+    intro b hb
+    rcases List.mem_append.mp hb with h | h
+    · simp only [pxPrefix, List.mem_cons, List.mem_nil_iff, or_false] at h
+      rcases h with rfl | rfl | rfl <;> decide
+    · rcases mem_joinWith h with h1 | ⟨s, hsm, hbs⟩
+      · simp only [List.mem_cons, List.mem_nil_iff, or_false] at h1
+        rcases h1 with rfl | rfl <;> decide
+      · exact ((hs s hsm).2.2.2 b hbs).1
+  have hws2 : ∀ b ∈ joinWith [46] segs, isWs b = false := by
+    intro b hb
+    rcases mem_joinWith hb with h1 | ⟨s, hsm, hbs⟩
+    · simp only [List.mem_cons, List.mem_nil_iff, or_false] at h1
+      subst h1
+      decide
+    · exact ((hs s hsm).2.2.2 b hbs).1
+  have hk : replaceDU (joinWith [95, 95] segs) = joinWith [46] segs :=
+    replaceDU_join segs (fun s h => ⟨(hs s h).2.1, (hs s h).2.2.1⟩)
+  have hsplit : splitDot (joinWith [46] segs) = segs :=
+    splitDot_join segs hne (fun s h hm => ((hs s h).2.2.2 46 hm).2 rfl)
+  have hany : segs.any (·.isEmpty) = false := by
+    rw [List.any_eq_false]
+    intro s h
+    have := (hs s h).1
+    cases s with
+    | nil => exact absurd rfl this
+    | cons _ _ => simp
+  unfold envKey
+  simp only [trim_id_of_all hws]
+  have htake : (pxPrefix ++ joinWith [95, 95] segs).take 3 = pxPrefix := by simp [pxPrefix]
+  have hdrop : (pxPrefix ++ joinWith [95, 95] segs).drop 3 = joinWith [95, 95] segs := by simp [pxPrefix]
+  have hlen : 3 ≤ (pxPrefix ++ joinWith [95, 95] segs).length := by simp [pxPrefix]
+  simp only [htake, hdrop, eqUncased_refl, hlen, decide_true, Bool.and_self, if_true, hk, hprof,
+    Bool.false_eq_true, if_false, trim_id_of_all hws2, hsplit, hany]
+
+example : envKey (pxPrefix ++ joinWith [95, 95] [[68, 66], [80, 79, 79, 76], [77, 65, 88, 95, 83, 73, 90, 69]]) =
+    some [[100, 98], [112, 111, 111, 108], [109, 97, 120, 95, 115, 105, 122, 101]] := by decide  -- PX_DB__POOL__MAX_SIZE
+
 end Pxv.Config
